@@ -20,6 +20,7 @@ RULE = ('random operation histories (constructors, setitem/del, row/slice/mask/i
         'relabel, do, concat/+, drop) over a pool of <=4 live tables, model-driven generation; a history is non-trivial when it has '
         '>=2 distinct op kinds applied to a table that was itself an op result and touches >=1 empty or column-only table; '
         'distinct = distinct canonical hash of the whole history term')
+RULE_ALSO = '; added by the coverage audit and round 8: positions as range / empty list / numpy masks, column names as dict views, do over every / no column, concat of nothing and with plain records among the operands, tables re-headed with a column list (also without rows); a projection lists its columns in the order asked for'
 ASSUMPTIONS = ['column order is not compared (concat uses set order by design)',
                'a table without columns has no rows (library normalisation adopted by the model)',
                'new column names never collide with existing ones; names data/columns/key are not used', 'do() over several columns is sequential: a transform reading another column sees that column as already transformed (the library\'s documented behaviour)',
